@@ -451,6 +451,89 @@ func famZipkinOdd() *family {
 	})
 }
 
+// ---- delivery families: the same bytes reaching the parser in different segments ---------------------------------------
+
+var zipkinDeliveries = []string{"bytes", "span-ends", "span-mids", "span-ends+mids", "chunk7", "half"}
+
+func famZipkinDelivery(nspans, pool int) *family {
+	zp := zipkinPool(pool)
+	dims := []dim{{"nd", 2}, {"delivery", len(zipkinDeliveries)}}
+	for i := 0; i < nspans; i++ {
+		dims = append(dims, dim{fmt.Sprintf("variant%d", i), pool})
+	}
+	return newFamily(fmt.Sprintf("zipkin-delivery%d", nspans), dims, func(d []int) *Batch {
+		b := &Batch{Proto: "zipkin", ND: d[0] == 1, Delivery: zipkinDeliveries[d[1]]}
+		for i := 0; i < nspans; i++ {
+			b.Spans = append(b.Spans, zp[d[2+i]])
+		}
+		return b
+	})
+}
+
+// every single split point (and, when pairs is set, every pair of split points) of one small body
+func famZipkinCuts(name string, seq []int, nd, pairs bool) *family {
+	zp := zipkinPool(7)
+	mk := func() *Batch {
+		b := &Batch{Proto: "zipkin", ND: nd}
+		for _, k := range seq {
+			b.Spans = append(b.Spans, zp[k])
+		}
+		return b
+	}
+	n := len(renderZipkin(mk()))
+	if !pairs {
+		return newFamily(name, []dim{{"cut", n - 1}}, func(d []int) *Batch {
+			b := mk()
+			b.Delivery = fmt.Sprintf("cut@%d", d[0]+1)
+			return b
+		})
+	}
+	return newFamily(name, []dim{{"cut1", n - 1}, {"cut2", n - 1}}, func(d []int) *Batch {
+		b := mk()
+		a, c := d[0]+1, d[1]+1
+		if a > c {
+			a, c = c, a
+		}
+		b.Delivery = fmt.Sprintf("cut@%d,%d", a, c)
+		return b
+	})
+}
+
+func famOTLPDelivery(pool int) *family {
+	sp := spanPool(pool)
+	del := []string{"bytes", "half", "chunk7"}
+	return newFamily("otlp-delivery", []dim{{"delivery", len(del)}, {"v0", pool}, {"v1", pool}, {"layout", 2}}, func(d []int) *Batch {
+		b := &Batch{Proto: "otlp", Delivery: del[d[0]]}
+		b.Res = []Resource{{Attrs: []KV{svcAttr("A")}, Scopes: 1}}
+		s0, s1 := sp[d[1]], sp[d[2]]
+		if d[3] == 1 {
+			b.Res = append(b.Res, Resource{Attrs: []KV{svcAttr("B")}, Scopes: 1})
+			s1.Res = 1
+		}
+		b.Spans = []Span{s0, s1}
+		return b
+	})
+}
+
+// size classes: bodies below / just over / several times the decoder's 64 KiB read buffer, and (thorough, plus one
+// quick case per framing) over the 1 MiB threshold at which onSpan flushes a chunk in the middle of the body
+func famZipkinBig(counts []int) *family {
+	del := []string{"", "chunk4096", "span-ends"}
+	return newFamily("zipkin-big", []dim{{"count", len(counts)}, {"nd", 2}, {"delivery", len(del)}}, func(d []int) *Batch {
+		return &Batch{Proto: "zipkin", ND: d[1] == 1, Delivery: del[d[2]], GenN: counts[d[0]], GenPad: 40, GenLongAt: -1}
+	})
+}
+
+// one span whose text is below / just over / far over 64 KiB (bufio.Scanner's default token limit), first or in the
+// middle of three spans
+func famZipkinLongSpan() *family {
+	lens := []int{65000, 65300, 66000, 200000}
+	del := []string{"", "chunk4096"}
+	return newFamily("zipkin-longspan", []dim{{"len", len(lens)}, {"at", 2}, {"nd", 2}, {"delivery", len(del)}}, func(d []int) *Batch {
+		return &Batch{Proto: "zipkin", ND: d[2] == 1, Delivery: del[d[3]], GenN: 3, GenLongAt: d[1], GenLongLen: lens[d[0]]}
+	})
+}
+
 func buildSpace(thorough bool) *space {
 	s := &space{}
 	add := func(f *family) { s.fams = append(s.fams, f); s.total += f.size }
@@ -486,5 +569,27 @@ func buildSpace(thorough bool) *space {
 		add(famZipkinMulti(3, 5, false))
 	}
 	add(famZipkinOrder())
+	add(famZipkinLongSpan())
+	add(famOTLPDelivery(4))
+	for _, nd := range []bool{false, true} {
+		add(famZipkinCuts(fmt.Sprintf("zipkin-cut1-2spans-nd=%v", nd), []int{0, 2}, nd, false))
+		add(famZipkinCuts(fmt.Sprintf("zipkin-cut1-3spans-nd=%v", nd), []int{3, 1, 2}, nd, false))
+	}
+	if thorough {
+		add(famZipkinDelivery(2, 7))
+		add(famZipkinDelivery(3, 7))
+		add(famZipkinBig([]int{1, 150, 200, 210, 220, 230, 240, 250, 300, 450, 700, 2500, 5000}))
+		for _, nd := range []bool{false, true} {
+			add(famZipkinCuts(fmt.Sprintf("zipkin-cut2-2spans-nd=%v", nd), []int{1, 3}, nd, true))
+		}
+	} else {
+		add(famZipkinDelivery(2, 5))
+		add(famZipkinDelivery(3, 4))
+		add(famZipkinBig([]int{150, 230, 300, 700}))
+		// one body over the 1 MiB flush threshold per framing
+		add(newFamily("zipkin-big-1mib", []dim{{"nd", 2}}, func(d []int) *Batch {
+			return &Batch{Proto: "zipkin", ND: d[0] == 1, GenN: 2500, GenPad: 40, GenLongAt: -1}
+		}))
+	}
 	return s
 }
